@@ -569,12 +569,13 @@ func (aw *advWorld) do(p *peerConn, op AdvOp) *advResult {
 		}
 		p.m3rightOK, p.setupClean, p.srp, p.salt, p.B = false, false, nil, nil, nil
 	case "ps-twin-race":
-		// The accessory files a connection (and its pair-setup controller) under the remote ip:port.
 		// A peer that binds two sockets to one local ip:port and connects them to two addresses of a
-		// multi-homed accessory owns two connections which are served by two goroutines and share one
-		// controller: a key exchange can arrive while a verify request is still being processed.
+		// multi-homed accessory owns two connections from one remote address, served by two
+		// goroutines. If the accessory files sessions (and pair-setup controllers) under the remote
+		// address only, they share one controller and a key exchange can arrive while a verify request
+		// is still being processed (hc did until e93800f).
 		addr := p.conn.Client().LocalAddr().String()
-		c2 := w.Sim.Dial(w.Sim.Listener, addr)
+		c2 := w.Sim.DialTo(w.Sim.Listener, addr, "10.0.1.1:51826")
 		cl2 := &ref.Client{Conn: c2.Client(), Rand: w.Rand}
 		name := p.name
 		cl2.Yield = func(what string) { w.Sim.Park("step", name, c2.ID, " "+what, nil) }
